@@ -301,7 +301,19 @@ class WrapperMixin(object):
         directory - output directory
         output - list of lines to write
         """
-        fp = open(os.path.join(directory, fname), "w")
+        path = os.path.join(directory, fname)
+        # Two declarations must not share a file, the second one
+        # would replace the wrappers of the first.
+        written = getattr(self.config, "files_written", None)
+        if written is not None:
+            if path in written:
+                raise RuntimeError(
+                    "The file {} is written twice. The file name templates "
+                    "give two declarations the same file name, "
+                    "set one of the *_filename_*_template options or formats."
+                    .format(path))
+            written[path] = True
+        fp = open(path, "w")
         fp.write("%s %s\n" % (self.comment, fname))
         fp.write("{} This file is generated by Shroud {}. Do not edit.\n".
                  format(self.comment, self.config.write_version))
